@@ -13,4 +13,12 @@ if [ ! -x bin/govc ] || [ -n "$(find tool/cmd -newer bin/govc -name '*.go' 2>/de
   ./setup.sh >/dev/null || { echo "setup failed"; exit 2; }
 fi
 mkdir -p evidence replays
-exec bin/govc -repo /repo -spec "$PWD/spec" check -prop "$prop" -tier "$tier" -evidence "$PWD/evidence/$prop.json" -replays "$PWD/replays" -known "$PWD/known_findings.json"
+bounded_arg=""
+lc=$(echo "$prop" | tr 'A-Z' 'a-z')
+if [ -f "bounded/${lc}_test.go" ]; then
+  # bounded stand-ins for the parts of the property no contract within reach can decide; run on the real code, labelled bounded
+  bout="$PWD/evidence/.bounded_$prop.json"; rm -f "$bout"
+  ( cd bounded && VERIF_TIER="$tier" VERIF_BOUNDED_OUT="$bout" go test -count=1 -timeout 20m -run "^Test${prop}\$" . ) > "evidence/.bounded_$prop.log" 2>&1
+  bounded_arg="-bounded $bout"
+fi
+exec bin/govc -repo /repo -spec "$PWD/spec" check -prop "$prop" -tier "$tier" -evidence "$PWD/evidence/$prop.json" -replays "$PWD/replays" -known "$PWD/known_findings.json" $bounded_arg
